@@ -131,10 +131,15 @@ def iter_episode(spec, uid="E", shared=None, events=None):
                 events.append({"k": "parse", "lines": it["lines"], "tags": it.get("tags", True), "out": out,
                                "components": comps, "deps": deps, "text": text})
             elif it["op"] == "deval":
+                if it.get("obj") is not None:
+                    # a persistent DiagramRule object keeps reading ITS file: that file is written once and never
+                    # reused for another diagram (the rotating paths above are for one-shot parses and rules)
+                    path = os.path.join(tmp, f"obj-{it['obj']}.puml")
                 ev = real(it["a"])
                 lines = it.get("lines") or canonical_lines(it["comps"], it["deps"])
-                with open(path, "w") as f:
-                    f.write(render(lines, True, it.get("pre", ""), it.get("post", "")))
+                if not (it.get("obj") is not None and it["obj"] in dobjs):
+                    with open(path, "w") as f:
+                        f.write(render(lines, True, it.get("pre", ""), it.get("post", "")))
                 before = observe(ev)
                 if it.get("obj") is not None and it["obj"] in dobjs:      # a persistent DiagramRule object, re-applied
                     rule = dobjs[it["obj"]]
